@@ -132,6 +132,12 @@ class Generator(SchemaVisitor[Any]):
                 if is_ellipsis(elem):
                     continue
                 elements.append(elem.__accept__(self, **kwargs))
+            if schema.props.len is not Nil:
+                # `...` stands for any elements: pad up to the declared length
+                padding = [None] * (schema.props.len - len(elements))
+                if (len(schema.props.elements) > 0) and is_ellipsis(schema.props.elements[0]):
+                    return padding + elements
+                return elements + padding
             return elements
 
         is_length_specified = False
